@@ -151,6 +151,8 @@ pub struct Built {
     pub model_layouts: BTreeMap<Option<usize>, String>,
     pub model_debug: BTreeMap<Option<usize>, String>,
     pub real_debug: BTreeMap<Option<usize>, Result<String, String>>,
+    /// the same builder formatted with other format specs (`{:#?}`, a precision, a width): (spec, text)
+    pub real_debug_specs: BTreeMap<Option<usize>, Vec<(String, Result<String, String>)>>,
     pub diffs: Vec<String>,
     /// disagreements about `has_system` / `contains` (aspect `query`)
     pub qdiffs: Vec<String>,
@@ -185,6 +187,7 @@ impl<'d> BuildCtx<'d> {
                 model_layouts: BTreeMap::new(),
                 model_debug: BTreeMap::new(),
                 real_debug: BTreeMap::new(),
+                real_debug_specs: BTreeMap::new(),
                 diffs: vec![],
                 qdiffs: vec![],
                 iters: BTreeMap::new(),
@@ -324,6 +327,11 @@ impl<'d> BuildCtx<'d> {
     pub fn finish(&mut self, b: &Builder, key: Option<usize>) {
         let real = catch_unwind(AssertUnwindSafe(|| format!("{:?}", b))).map_err(|p| panic_message(&p));
         self.out.real_debug.insert(key, real);
+        let mut specs = vec![];
+        specs.push(("{:#?}".to_string(), catch_unwind(AssertUnwindSafe(|| format!("{:#?}", b))).map_err(|p| panic_message(&p))));
+        specs.push(("{:.3?}".to_string(), catch_unwind(AssertUnwindSafe(|| format!("{:.3?}", b))).map_err(|p| panic_message(&p))));
+        specs.push(("{:>28?}".to_string(), catch_unwind(AssertUnwindSafe(|| format!("{:>28?}", b))).map_err(|p| panic_message(&p))));
+        self.out.real_debug_specs.insert(key, specs);
         if let Some(l) = self.ask("layout") {
             self.out.model_layouts.insert(key, l);
         }
